@@ -141,6 +141,8 @@ def canvases(draw, rows_only=False):
     if not rows_only:
         c["trims"] = draw(st.lists(st.tuples(*[coord] * 8).map(list), min_size=N_SAMPLED, max_size=N_SAMPLED))
         c["composite"] = draw(st.integers(0, 12))
+    else:
+        c["flow_how"] = draw(st.sampled_from([0, 0, 1, 1, 2, 3]))  # see check_flow_rows
     return c
 
 
@@ -559,11 +561,42 @@ def check_flow_rows(c, rec):
     configure(c)
     pil, image, w, spec = build(c)
     try:
+        h = c.get("flow_how", 0)
+        if h in (1, 3):
+            # the width at which the unscaled image just fits (the AUTO/ORIGINAL boundary of a flow widget)
+            c = dict(c, size=[max(1, image._valid_size(I.Size.ORIGINAL)[0])])
+            rec.label("at_original_width")
+        if h in (2, 3):
+            # the widget was laid out before, under another cell ratio / cell size
+            import term_image
+
+            other = {0.5: 1.0, 1.0: 0.5}.get(c["ratio"], 0.5)
+            term_image.set_cell_ratio(other)
+            if c["cell"]:
+                env.apply(cell=[c["cell"][0] + 1, c["cell"][1] + 3])
+            lib(lambda: w.rows(tuple(c["size"])), "rows() under the earlier geometry")
+            lib(lambda: w.render(tuple(c["size"])), "render() under the earlier geometry")
+            term_image.set_cell_ratio(c["ratio"])
+            env.apply(cell=c["cell"])
+            w._invalidate()
+            urwid.CanvasCache.clear()
+            rec.label("prior_geometry")
         what = f"{c['style']} {c['image']['w']}x{c['image']['h']}px spec={spec!r} upscale={c['upscale']} cell={c['cell']} ratio={c['ratio']}"
         canv, W, H, full = render_canvas(c, w, what)
         again = lib(lambda: w.rows(tuple(c["size"])), f"{what}: rows() after render")
         if again != H:
             raise Violation(f"{what}: rows() after rendering says {again}, canvas has {H}", {"kind": "flow_rows"})
+        if h in (2, 3):
+            pil2, image2, w2, _ = build(c)
+            try:
+                fresh = lib(lambda: w2.rows(tuple(c["size"])), f"{what}: rows() of a fresh widget")
+            finally:
+                del w2
+                image2.close()
+                pil2.close()
+            if fresh != H:
+                raise Violation(f"{what}: a widget laid out earlier under another cell geometry announces/renders {H} rows for width "
+                                f"{c['size'][0]}, a fresh widget announces {fresh}", {"kind": "flow_rows_stale"})
         ori = image._valid_size(I.Size.ORIGINAL)
         fits = ori[0] <= W
         rec.label(f"style:{c['style']}", "upscale" if c["upscale"] else "noupscale", "original_fits" if fits else "shrunk")
